@@ -685,11 +685,42 @@ fn spawn_tick(mut w: World, timeout: u64) -> Ticker {
 /// the eight orderings of {worker: read flag (R), unlock (U)} against {tick: clear (C), try-lock (L), re-arm (A)}
 const ORDERINGS: &[&str] = &["R U C L", "R C U L", "C R U L", "C R L U A", "C R L A U", "C L R A U", "C L A R U", "R C L A U", "C L A return R U", "C R L A (tick goes on, worker held) U", "R C L A (tick goes on, worker held) U"];
 
-fn c13_schedule(order: usize, empty_pattern: bool, rng: &mut Rng, id: String, rep: &mut Report) {
+fn c13_schedule(order: usize, empty_pattern: bool, age: u32, rng: &mut Rng, id: String, rep: &mut Report) {
     let threads = *rng.pick(&[1usize, 2]);
     reset_ctl(true);
+    if age > 0 {
+        crate::m_worker::REG_CAP.store(1 << 17, Ordering::Relaxed);
+    }
     let mut w = World::new(id.clone(), rng, threads, 1, None);
-    let k = w.new_injector();
+    crate::m_worker::REG_CAP.store(1 << 16, Ordering::Relaxed);
+    let mut k = w.new_injector();
+    if age > 0 {
+        // a long-lived instance: `age` earlier background runs (one item each, empty pattern, the stream cleared now and
+        // then so that the snapshots stay small)
+        let before = hits(Point::RunEntry);
+        for i in 0..age {
+            if i % 2048 == 2047 {
+                w.restart(true);
+                k = w.new_injector();
+            }
+            let first = w.alloc_ids(1);
+            let stream = w.handles[k].stream;
+            inject(&w.handles[k].inj, &w.reg, stream, first, 1, false, &w.invoked, &w.completed);
+            let mut g = 0;
+            while w.n().tick(50).running && g < 100 {
+                g += 1;
+            }
+        }
+        w.note(format!("{age} push+tick cycles on this instance beforehand"));
+        let runs = hits(Point::RunEntry) - before;
+        if runs >= 65536 {
+            rep.count("c13.schedules-on-an-instance-with-65536+-earlier-runs");
+        }
+        let mut g = 0;
+        while w.tick(50).running && g < 100 {
+            g += 1;
+        }
+    }
     if !empty_pattern {
         w.edit(0, "o");
     }
@@ -1563,7 +1594,10 @@ pub fn run_c13(opts: &Opts, rep: &mut Report) {
             0..=17 => {
                 let order = ((idx / 20 * 18 + idx % 20) % 11) as usize;
                 let empty = (idx % 20) >= 9;
-                c13_schedule(order, empty, &mut rng, id, rep);
+                // once per shard, on the orderings in which the worker decides between the tick's failed lock attempt and
+                // its re-arming: the same schedule on an instance that has already done more than 2^16 runs
+                let age = if idx == 4 + opts.shard % 2 && matches!(order, 4 | 5) && !cfg!(miri) { 66_000 } else { 0 };
+                c13_schedule(order, empty, age, &mut rng, id, rep);
             }
             18 if (idx / 20) % 6 == 0 => c13_injector_clause(&mut rng, id, rep),
             18 if (idx / 20) % 6 == 1 => c13_update_config(&mut rng, id, rep),
